@@ -73,6 +73,7 @@ impl Checker {
                 let mut call_key = call.clone();
                 call_key.feed_prev = false;
                 call_key.via_clone = false; // the reference is always a fresh formatter in a fresh process
+                call_key.nest = None; // ... and makes no nested call: the outer result must not depend on one
                 let call = &call_key;
                 let (ra, rb) = self.reference(call, text)?;
                 if ra != rb {
@@ -104,6 +105,20 @@ impl Checker {
                         call: ci,
                         message: format!("call {:?} on doc {} with {:?} (thread {}, call #{}) differs from the same call alone in a fresh process: {}", call.op, call.doc, call.cfg, tid, ci, diff_msg(res, &ra)),
                     });
+                }
+                // the call nested inside this one's inspector, against its own single-call reference
+                if let (Some((idoc, icfg)), Some(Some(inner))) = (&script[ci].nest, out.inner_results.get(tid).and_then(|r| r.get(ci))) {
+                    let icall = Call { op: super::Op::Content, doc: *idoc % sc.docs.len(), cfg: *icfg, feed_prev: false, via_clone: false, nest: None };
+                    let itext = sc.docs[icall.doc].as_str();
+                    let (ia, ib) = self.reference(&icall, itext)?;
+                    if ia == ib && ia != Res::Panic {
+                        self.compared += 1;
+                        if *inner == Res::Panic {
+                            v.push(Violation17 { invariant: "V17.2-panic".into(), tid, call: ci, message: format!("format_content on doc {} with {:?}, called from inside the inspector callback of another call on the same thread, panicked although the same call alone in a fresh process returns normally", icall.doc, icfg) });
+                        } else if *inner != ia {
+                            v.push(Violation17 { invariant: "V17.1-result".into(), tid, call: ci, message: format!("format_content on doc {} with {:?}, called from inside the inspector callback of another call on the same thread, differs from the same call alone in a fresh process: {}", icall.doc, icfg, diff_msg(inner, &ia)) });
+                        }
+                    }
                 }
             }
         }
